@@ -22,8 +22,10 @@ import (
 
 type leafNode struct{ blocks.Block }
 
-func (l leafNode) Resolve([]string) (interface{}, []string, error) { return nil, nil, fmt.Errorf("leaf") }
-func (l leafNode) Tree(string, int) []string                      { return nil }
+func (l leafNode) Resolve([]string) (interface{}, []string, error) {
+	return nil, nil, fmt.Errorf("leaf")
+}
+func (l leafNode) Tree(string, int) []string { return nil }
 func (l leafNode) ResolveLink([]string) (*format.Link, []string, error) {
 	return nil, nil, fmt.Errorf("leaf")
 }
